@@ -133,6 +133,7 @@ func (ex *Exec) callFn(st *State, fr *Frame, x *ssa.Call, fn *ssa.Function, bind
 	for _, p := range fn.Params {
 		ex.pendingParamTypes = append(ex.pendingParamTypes, p.Type())
 	}
+	ex.pendingCallee = fn
 	return ex.applyContract(st, fr, x, c, key, names, args, sig.Results(), fn.Pkg)
 }
 
@@ -242,6 +243,8 @@ func (ex *Exec) ifaceContract(static types.Type, m *types.Func) (*Contract, stri
 // applyContract replaces a call by the callee's contract.
 func (ex *Exec) applyContract(st *State, fr *Frame, x *ssa.Call, c *Contract, key string, names []string, args []Val, results *types.Tuple, pkg *ssa.Package) bool {
 	short := shortFn(key)
+	callee := ex.pendingCallee
+	ex.pendingCallee = nil
 	// ghosts of the callee that its preconditions constrain must be instantiated by the caller (callghost)
 	instGhost := map[string]Val{}
 	for _, g := range c.Ghosts {
@@ -364,6 +367,17 @@ func (ex *Exec) applyContract(st *State, fr *Frame, x *ssa.Call, c *Contract, ke
 	// modifies: havoc
 	for _, m := range c.Modifies {
 		env.havoc(m.Expr)
+	}
+	if c.Arith {
+		st.Ghost["opmeter"] = st.Ghost["metered"]
+		st.Ghost["opseen"] = IntC(1)
+	} else if !c.Assumed && (callee == nil || ex.mayArith(callee, 0)) {
+		// a verified callee that may itself run such an operation: unknown afterwards unless its contract says
+		for _, gn := range []string{"opseen", "opmeter"} {
+			if !declaresGhost(c, gn) {
+				st.Ghost[gn] = ex.fresh("gh_"+gn, st.Ghost[gn].S)
+			}
+		}
 	}
 	// results
 	var rets []Val
